@@ -303,6 +303,13 @@ def _attr_shard(arg) -> Stats:
                     extra.append(DenseIntOrFPElementsAttr.from_list(TensorType(t, [2]), [v, 1.5]))
                 except Exception:  # noqa: BLE001
                     pass
+    # complex elements mixing finite and non-finite parts (the printer writes nan / inf parts as hexadecimal bit patterns)
+    from xdsl.dialects.builtin import ComplexType
+    inf, nan = float("inf"), float("nan")
+    for t in (f32, f64):
+        for pair in ((1.5, inf), (inf, 1.5), (-0.0, nan), (nan, 0.25), (inf, nan), (-inf, -inf), (1.5, 2.5)):
+            extra.append(DenseIntOrFPElementsAttr.from_list(TensorType(ComplexType(t), [1]), [pair]))
+            extra.append(DenseIntOrFPElementsAttr.from_list(TensorType(ComplexType(t), [2]), [pair, (0.0, 1.0)]))
     items = [("desc", d) for d in descs] + [("attr", a) for a in extra]
     for i, (kind, d) in enumerate(items):
         if i % nshards != shard:
